@@ -1095,6 +1095,16 @@ class Object( object ):
             # artifact, converting it into a reply.  All of these requests produce/consume a
             # sequence of unsigned bytes.
             data.service       |= 0x80
+
+            # The request must be addressed to this Object.  A request whose path could not be
+            # routed (eg. non-existent Class/Instance, in a Multiple Service Packet) arrives at the
+            # Message Router itself; it must not be executed against the router's own Attributes.
+            if 'path' in data:
+                data.status	= 0x05		# Request Path destination unknown
+                clid,inid,_	= resolve( data.path )
+                assert clid == self.class_id and inid == self.instance_id, \
+                    "Path %r processed by wrong Object %r" % ( data.path['segment'], self )
+                data.status	= 0x08
             result		= b''
             if data.service == self.GA_ALL_RPY:
                 # Get Attributes All.  Collect up the bytes representing the attributes.  Replace
